@@ -67,6 +67,8 @@ pub fn collect_namespaces_on_node<'n>(node: Node<'n, 'n>, doc: &mut RustDocument
     for ns in node.namespaces() {
         if let Some(abbreviation) = ns.name() {
             doc.add_namespace_reference(abbreviation, ns.uri());
+        } else if doc.default_namespace.is_none() {
+            doc.default_namespace = Some(ns.uri().to_string());
         }
     }
 }
